@@ -92,7 +92,7 @@ func (h *c15Run) stepNewUser(r *RNG, p *c15Pool, step int) {
 		pw = []byte{}
 	}
 	if r.Chance(90) {
-		fs = append(fs, c15Field{110, c15GenAccess(r)})
+		fs = append(fs, c15Field{110, h.access(r)})
 	}
 	before := h.ts.Acct.Get(string(l)) != nil
 	res, _, pn := h.ts.Call(h.cc, mkTran(hotline.TranNewUser, uint32(step), c15Fields(fs)...))
@@ -121,7 +121,7 @@ func (h *c15Run) stepSetUser(r *RNG, p *c15Pool, step int) {
 		fs = append(fs, c15Field{102, p.name(r)})
 	}
 	if r.Chance(85) {
-		fs = append(fs, c15Field{110, c15GenAccess(r)})
+		fs = append(fs, c15Field{110, h.access(r)})
 	}
 	present, data, kind := c15PwChoice(r, p)
 	if present {
@@ -236,7 +236,7 @@ func (h *c15Run) stepGetUser(r *RNG, p *c15Pool, step int) {
 		if v, ok := h.hashPw[hash]; ok {
 			pwHex = v
 		} else {
-			for _, pw := range append([][]byte{{}, []byte("adm")}, h.pws[string(l)]...) {
+			for _, pw := range append([][]byte{{}, obf([]byte("adm"))}, h.pws[string(l)]...) {
 				if h.verifies(hash, pw) {
 					pwHex = hx(pw)
 					h.hashPw[hash] = pwHex
@@ -278,7 +278,7 @@ func (h *c15Run) genRec(r *RNG, p *c15Pool) c15Rec {
 			rec.fs = append(rec.fs, c15Field{106, data})
 		}
 		if r.Chance(70) {
-			rec.fs = append(rec.fs, c15Field{110, c15GenAccess(r)})
+			rec.fs = append(rec.fs, c15Field{110, h.access(r)})
 		}
 		return rec
 	case 5, 6, 7: // rename
@@ -292,14 +292,14 @@ func (h *c15Run) genRec(r *RNG, p *c15Pool) c15Rec {
 			rec.fs = append(rec.fs, c15Field{106, data})
 		}
 		if r.Chance(70) {
-			rec.fs = append(rec.fs, c15Field{110, c15GenAccess(r)})
+			rec.fs = append(rec.fs, c15Field{110, h.access(r)})
 		}
 		return rec
 	default: // create
 		l := p.login(r)
 		rec := c15Rec{kind: "create", src: l, dst: l, pwKind: "value"}
 		rec.pwData = p.pw(r)
-		rec.fs = []c15Field{{105, obf(l)}, {102, p.name(r)}, {110, c15GenAccess(r)}}
+		rec.fs = []c15Field{{105, obf(l)}, {102, p.name(r)}, {110, h.access(r)}}
 		if r.Chance(92) {
 			rec.fs = append(rec.fs, c15Field{106, rec.pwData}) // absent: the handler panics (nil dereference)
 		}
@@ -322,6 +322,7 @@ func (h *c15Run) stepUpdateUser(r *RNG, p *c15Pool, step int) {
 		fields = append(fields, hotline.NewField(hotline.FieldData, c15SubRecord(rec.fs)))
 		tok += " " + c15Tok(rec.fs)
 		kinds += rec.kind[:1]
+		h.c.Dist("update-record/" + rec.kind)
 		if rec.pwKind == "value" && rec.dst != nil {
 			h.addPw(rec.dst, rec.pwData)
 		}
@@ -342,7 +343,6 @@ func (h *c15Run) stepUpdateUser(r *RNG, p *c15Pool, step int) {
 	o := classify(res, pn)
 	h.obs(tok, fmt.Sprintf("step %d update-user %s", step, kinds), o)
 	h.c.Dist("update-user/" + fmt.Sprint(n) + "/" + o)
-	h.c.Dist("update-user-kinds/" + kinds)
 	if o == "done" {
 		h.nDone++
 		h.nMut++
